@@ -246,7 +246,8 @@ class Built:
                 s += ' = _D%d' % i
             params.append(s)
         if c['extra']:
-            params.append('_yatiml_extra: OrderedDict = None')
+            params.append('_yatiml_extra = None' if c.get('extraann') == 'none'
+                          else '_yatiml_extra: OrderedDict = None')
         if c.get('kwonly'):
             params.append('*')
             for k in c['kwonly']:
